@@ -253,13 +253,13 @@ func scenarios() []scenario {
 
 func main() {
 	flag.Parse()
-	base, err := os.MkdirTemp("", "c18")
+	base, err := vcommon.TempDir("", "c18")
 	if err != nil {
 		vcommon.Infra("%v", err)
 	}
 	defer os.RemoveAll(base)
 	// a second file system for real EXDEV
-	if d, err := os.MkdirTemp("/dev/shm", "c18"); err == nil {
+	if d, err := vcommon.TempDir("/dev/shm", "c18"); err == nil {
 		probe := filepath.Join(base, "probe")
 		os.WriteFile(probe, []byte("x"), 0o644)
 		if err := os.Rename(probe, filepath.Join(d, "probe")); err != nil && strings.Contains(err.Error(), "cross-device") {
@@ -325,10 +325,7 @@ func main() {
 		}
 	}
 	fmt.Printf("%d scenarios, %d runs (%d with injected faults), second file system: %q, outcomes %v\n", nScen, evals, nFaultRuns, otherFS, labels)
-	os.RemoveAll(base) // os.Exit below skips deferred calls
-	if otherFS != "" {
-		os.RemoveAll(otherFS)
-	}
+	vcommon.Cleanup() // os.Exit below skips deferred calls
 	code, n := vcommon.Report("C18", viols)
 	vcommon.WriteEvidence(&vcommon.Evidence{PropertyID: "C18", Level: "fault_enumeration", Violations: n,
 		Coverage: map[string]any{
